@@ -310,6 +310,10 @@ func (d *cnDriver) rhTx(v *rhView, node, sched, vote, validity string, nonceBump
 		Nonce: uint64(d.acctField(signerName, "n")) + nonceBump[signerName], Gas: 2000, Validity: validity}
 	if vote != "F" {
 		sp.VRoot = rhVoteRoot(v.RT, round, vote).String()[:16]
+		if len(v.W) == 1 && len(v.B) == 0 && validity == "ok" && d.rng.Intn(2) == 0 {
+			sp.Huge = true // the only worker of its committee: whatever it commits to is what gets finalized
+			d.hugeInBlock = true
+		}
 	}
 	n.rhPrev[v.RT] = prev
 	raw, err := n.buildTx(sp, d.rng)
